@@ -36,7 +36,14 @@ fn check_replace(variant: usize) -> Option<String> {
     match variant {
         0 => other.clear(),
         1 => other.push(WordWeightRecord::new("火星猫".into(), vec![1, -2, 3, -4], "x".into()).unwrap()),
-        _ => { other.reverse(); }
+        2 => { other.reverse(); }
+        _ => {
+            // the same word twice in a row, and once more later: all three records must be kept
+            other.push(WordWeightRecord::new("猫".into(), vec![1, 2], "a".into()).unwrap());
+            other.push(WordWeightRecord::new("猫".into(), vec![30, 40], "b".into()).unwrap());
+            other.push(WordWeightRecord::new("火星".into(), vec![5, 6, 7], "".into()).unwrap());
+            other.push(WordWeightRecord::new("猫".into(), vec![500, 600], "c".into()).unwrap());
+        }
     }
     let n_tag_models = model.tag_models().len();
     model.replace_dictionary(other.clone());
@@ -63,15 +70,68 @@ pub fn search() -> Option<String> {
             }
         }
     }
-    for v in 0..3 {
+    for v in 0..4 {
         if let Some(d) = check_replace(v) {
+            return Some(d);
+        }
+    }
+    // score-difference clause on seeded random models: replacing the dictionary changes every boundary score by
+    // exactly (new entries' contributions) - (old entries' contributions), computed by the brute-force linear model
+    let base = std::env::var("VERIF_SEED").ok().and_then(|s| s.parse::<u64>().ok()).unwrap_or(0);
+    for i in 0..150u64 {
+        let seed = base.wrapping_mul(7919).wrapping_add(i);
+        if let Some(d) = check_scores(seed) {
             return Some(d);
         }
     }
     None
 }
 
+fn check_scores(seed: u64) -> Option<String> {
+    use crate::gen::{gen_model, gen_text, reference_scores, Rng};
+    use vaporetto::{Predictor, Sentence};
+    let arg = format!("sc:{seed}");
+    let r = std::panic::catch_unwind(|| -> Option<String> {
+        let mut r = Rng(seed);
+        let md_old = gen_model(&mut r, false);
+        let mut md_new = md_old.clone();
+        md_new.dict_model = gen_model(&mut r, false).dict_model; // an unrelated random dictionary
+        if seed % 3 == 0 {
+            // duplicates (adjacent and separated) must all count
+            let extra = md_new.dict_model.0.first().cloned();
+            if let Some(e) = extra { md_new.dict_model.0.insert(0, e.clone()); md_new.dict_model.0.push(e); }
+        }
+        let (mut model, _) = Model::read_slice(&md_old.to_bytes()).ok()?;
+        let new_dict: Vec<WordWeightRecord> = md_new.dict_model.0.iter()
+            .map(|w| WordWeightRecord::new(w.word.clone(), w.weights.clone(), w.comment.clone()).unwrap()).collect();
+        let p_old = Predictor::new(Model::read_slice(&md_old.to_bytes()).ok()?.0, false).ok()?;
+        model.replace_dictionary(new_dict);
+        let p_new = Predictor::new(model, false).ok()?;
+        for _ in 0..5 {
+            let text = gen_text(&mut r, 12);
+            let mut a = Sentence::from_raw(text.clone()).ok()?;
+            let mut b = Sentence::from_raw(text.clone()).ok()?;
+            p_old.predict(&mut a);
+            p_new.predict(&mut b);
+            let got: Vec<i64> = a.boundary_scores().iter().zip(b.boundary_scores()).map(|(x, y)| *y as i64 - *x as i64).collect();
+            let want: Vec<i64> = reference_scores(&md_old, &text).iter().zip(reference_scores(&md_new, &text)).map(|(x, y)| y - x).collect();
+            if got != want {
+                return Some(format!("score change after replace_dictionary on {:?}: expected {:?} actual {:?}", text, want, got));
+            }
+        }
+        None
+    });
+    match r {
+        Ok(None) => None,
+        Ok(Some(w)) => Some(desc(&arg, &w)),
+        Err(_) => Some(desc(&arg, "panic")),
+    }
+}
+
 pub fn replay(arg: &str) -> Option<String> {
+    if let Some(seed) = arg.strip_prefix("sc:") {
+        return check_scores(seed.parse().ok()?);
+    }
     if let Some(rest) = arg.strip_prefix("rec:") {
         let (n, w) = rest.split_once(':')?;
         return check_record(w, n.parse().ok()?);
